@@ -233,6 +233,14 @@ pub fn c03(a: &Args) {
                 if s != want.to_string() { out.fail("stream-sat", &file.text(), &msg, &s, &want.to_string()); }
             }
             if qi % 3 == 0 || l.len() > 7 { out.query("sat", &fmt_ints(l), &got); }
+            // the imperative propagation itself: exact mark vector of one call on a fresh vector
+            if qi % 4 == 1 {
+                let mut mark = vec![false; d.nodes.len()];
+                if let Ok(b) = guarded(|| d.sat_propagate(l, &mut mark, None)) {
+                    let bits: String = mark.iter().map(|&x| if x { '1' } else { '0' }).collect();
+                    out.query("satstate", &fmt_ints(l), &format!("{} {}", b, bits));
+                }
+            }
             // incremental: split the list into chunks, keep the propagation state
             if qi % 2 == 0 && l.len() >= 2 {
                 let mut mark = vec![false; d.nodes.len()];
